@@ -58,10 +58,7 @@ theorem spec_and {es : List (Exp (Ext K))} (ih : ∀ e ∈ es, SpecHolds Src e) 
   · cases hg; cases hset
     have hvars : ∀ e ∈ es, ∀ x ∈ varsOf e, inScope s.domain x := fun e he x hx =>
       hpre.vars x (by simp only [varsOf]; exact mem_varsOfList.mpr ⟨e, he, hx⟩)
-    have hdef : ∀ e ∈ es, DefinedE e := definedE_of_evalList (fun ρ => by
-      obtain ⟨m, hm⟩ := hpre.defined ρ
-      obtain ⟨vs, hvs, _⟩ := eval_and_some hm
-      exact ⟨vs, hvs⟩)
+    have hdef : ∀ e ∈ es, FinE e := hpre.defined.and_mem
     obtain ⟨hlin, hbin⟩ := binOperands_spec es ih s ops sL hpre.inv hvars hdef hops
     generalize hv : (toString "$and_" ++ toString sL.andCount) = v at *
     simp only [Prod.mk.injEq] at hr
@@ -133,10 +130,7 @@ theorem spec_or {es : List (Exp (Ext K))} (ih : ∀ e ∈ es, SpecHolds Src e) :
   · cases hg; cases hset
     have hvars : ∀ e ∈ es, ∀ x ∈ varsOf e, inScope s.domain x := fun e he x hx =>
       hpre.vars x (by simp only [varsOf]; exact mem_varsOfList.mpr ⟨e, he, hx⟩)
-    have hdef : ∀ e ∈ es, DefinedE e := definedE_of_evalList (fun ρ => by
-      obtain ⟨m, hm⟩ := hpre.defined ρ
-      obtain ⟨vs, hvs, _⟩ := eval_or_some hm
-      exact ⟨vs, hvs⟩)
+    have hdef : ∀ e ∈ es, FinE e := hpre.defined.or_mem
     obtain ⟨hlin, hbin⟩ := binOperands_spec es ih s ops sL hpre.inv hvars hdef hops
     generalize hv : (toString "$or_" ++ toString sL.orCount) = v at *
     simp only [Prod.mk.injEq] at hr
@@ -240,10 +234,7 @@ theorem spec_implies {l r : Exp (Ext K)} (ihl : SpecHolds Src l) (ihr : SpecHold
     rcases mem_pair.mp he with rfl | rfl
     · exact hpre.vars x (by simp [varsOf, hx])
     · exact hpre.vars x (by simp [varsOf, hx])
-  have hdef : ∀ e ∈ [l, r], DefinedE e := definedE_of_evalList (fun ρ => by
-    obtain ⟨m, hm⟩ := hpre.defined ρ
-    obtain ⟨x, y, hxy, _⟩ := eval_logic2_some (eval_implies_eq ρ l r) hm
-    exact ⟨_, hxy⟩)
+  have hdef : ∀ e ∈ [l, r], FinE e := hpre.defined.implies_mem
   obtain ⟨hlin, hbin⟩ := binOperands_spec [l, r] ih s [a, b] s2 hpre.inv hvars hdef (two_operands h1 h2)
   generalize hv : (toString "$implies_" ++ toString s2.impliesCount) = v at *
   simp only [Prod.mk.injEq] at hr
@@ -312,10 +303,7 @@ theorem spec_iff {l r : Exp (Ext K)} (ihl : SpecHolds Src l) (ihr : SpecHolds Sr
     rcases mem_pair.mp he with rfl | rfl
     · exact hpre.vars x (by simp [varsOf, hx])
     · exact hpre.vars x (by simp [varsOf, hx])
-  have hdef : ∀ e ∈ [l, r], DefinedE e := definedE_of_evalList (fun ρ => by
-    obtain ⟨m, hm⟩ := hpre.defined ρ
-    obtain ⟨x, y, hxy, _⟩ := eval_logic2_some (eval_iff_eq ρ l r) hm
-    exact ⟨_, hxy⟩)
+  have hdef : ∀ e ∈ [l, r], FinE e := hpre.defined.iff_mem
   obtain ⟨hlin, hbin⟩ := binOperands_spec [l, r] ih s [a, b] s2 hpre.inv hvars hdef (two_operands h1 h2)
   generalize hv : (toString "$iff_" ++ toString s2.iffCount) = v at *
   simp only [Prod.mk.injEq] at hr
@@ -389,10 +377,7 @@ theorem spec_xor {l r : Exp (Ext K)} (ihl : SpecHolds Src l) (ihr : SpecHolds Sr
     rcases mem_pair.mp he with rfl | rfl
     · exact hpre.vars x (by simp [varsOf, hx])
     · exact hpre.vars x (by simp [varsOf, hx])
-  have hdef : ∀ e ∈ [l, r], DefinedE e := definedE_of_evalList (fun ρ => by
-    obtain ⟨m, hm⟩ := hpre.defined ρ
-    obtain ⟨x, y, hxy, _⟩ := eval_logic2_some (eval_xor_eq ρ l r) hm
-    exact ⟨_, hxy⟩)
+  have hdef : ∀ e ∈ [l, r], FinE e := hpre.defined.xor_mem
   obtain ⟨hlin, hbin⟩ := binOperands_spec [l, r] ih s [a, b] s2 hpre.inv hvars hdef (two_operands h1 h2)
   generalize hv : (toString "$xor_" ++ toString s2.xorCount) = v at *
   simp only [Prod.mk.injEq] at hr
